@@ -168,12 +168,12 @@ class Emitter:
         pid = o.get('parentDeclContextId')
         if pid and pid in self.byid and self.byid[pid]['id'] in self.qname:
             return self.qname[pid].split('::')
-        return self.u.get('namespace', 'ccl').split('::')
+        return self.u.get('top_scope', 'ccl').split('::')
 
     # ---------------------------------------------------------------- naming
     def owner_record(self, decl):
         p = self.parent.get(decl['id'])
-        if p is None and decl.get('parentDeclContextId') in self.byid:
+        if decl.get('parentDeclContextId') in self.byid:
             p = self.byid[decl['parentDeclContextId']]
         while p is not None and p.get('kind') not in ('CXXRecordDecl', 'ClassTemplateSpecializationDecl'):
             if p.get('kind') in ('NamespaceDecl', 'TranslationUnitDecl'): return None
@@ -289,6 +289,10 @@ class Emitter:
                 else:
                     t = Ty('opaque' if c.startswith('opq_') else 'scalar', c)
                 t.ref = ref; t.const = const; return t
+        for pat, c in self.u.get('opaque', {}).items():
+            if re.fullmatch(pat, q):
+                self.opaque[c] = q
+                return Ty('opaque', c, ref=ref, const=const)
         for pat, rep in LIBTYPES:
             if re.fullmatch(pat, q):
                 t = self.ty(rep); t.ref = ref or t.ref; t.const = const or t.const; return t
@@ -315,17 +319,50 @@ class Emitter:
             cn = 'pair_%s_%s' % (cident(ta.c), cident(tb.c))
             self.containers.setdefault(cn, 'CC_DEFINE_PAIR(%s,%s,%s)' % (cn, ta.c, tb.c))
             return Ty('pair', cn, elem=tb, key=ta, ref=ref, const=const)
+        if re.fullmatch(r'std::_Bit_reference|std::vector<bool(, std::allocator<bool>)?>::reference', q):
+            return Ty('bitref', 'cc_bool', ref=ref, const=const)
         m = re.fullmatch(r'std::vector<(.*)>', q)
         if m:
             args = split_targs(m.group(1)); e = self.ty(args[0])
             cn = 'vec_' + cident(e.c)
             cap = self.u.get('caps', {}).get(cn, self.u.get('caps', {}).get('default', 'CC_CAP'))
-            self.containers.setdefault(cn, 'CC_DEFINE_VEC(%s,%s,%s)' % (cn, e.c, cap))
+            mac = 'CC_DEFINE_VEC(%s,%s,%s)' % (cn, e.c, cap)
+            if e.kind == 'scalar': mac += '\nCC_DEFINE_VEC_SCALAR(%s,%s,%s)' % (cn, e.c, cap)
+            self.containers.setdefault(cn, mac)
             return Ty('vec', cn, elem=e, ref=ref, const=const)
-        m = re.fullmatch(r'__gnu_cxx::__normal_iterator<(.*)>', q)
+        m = re.fullmatch(r'std::unordered_set<(.*)>', q)
         if m:
-            args = split_targs(m.group(1)); cont = self.ty(args[1])
+            args = split_targs(m.group(1)); e = self.ty(args[0])
+            if e.kind != 'scalar': raise Unsupported('unordered_set of non-scalar ' + q)
+            cn = 'uset_' + cident(e.c)
+            cap = self.u.get('caps', {}).get(cn, self.u.get('caps', {}).get('default', 'CC_CAP'))
+            self.containers.setdefault(cn, 'CC_DEFINE_USET(%s,%s,%s)' % (cn, e.c, cap))
+            return Ty('uset', cn, elem=e, ref=ref, const=const)
+        m = re.fullmatch(r'std::set<std::pair<(.*)>>|std::set<std::pair<(.*)>, .*>', q)
+        if m:
+            a, b = split_targs(m.group(1) or m.group(2))[:2]; ta = self.ty(a); tb = self.ty(b)
+            if ta.kind != 'scalar' or tb.kind != 'scalar': raise Unsupported('set<pair> of non-scalars ' + q)
+            cn = 'pset_%s_%s' % (cident(ta.c), cident(tb.c))
+            cap = self.u.get('caps', {}).get(cn, self.u.get('caps', {}).get('default', 'CC_CAP'))
+            self.containers.setdefault(cn, 'CC_DEFINE_PSET(%s,%s,%s,%s)' % (cn, ta.c, tb.c, cap))
+            return Ty('pset', cn, elem=tb, key=ta, ref=ref, const=const)
+        m = re.fullmatch(r'std::unordered_map<(.*)>', q)
+        if m:
+            args = split_targs(m.group(1)); k = self.ty(args[0]); v = self.ty(args[1])
+            if k.kind != 'scalar' or v.kind != 'scalar': raise Unsupported('unordered_map of non-scalar ' + q)
+            cn = 'umap_%s_%s' % (cident(k.c), cident(v.c))
+            cap = self.u.get('caps', {}).get(cn, self.u.get('caps', {}).get('default', 'CC_CAP'))
+            self.containers.setdefault(cn, 'CC_DEFINE_UMAP(%s,%s,%s,%s)' % (cn, k.c, v.c, cap))
+            return Ty('umap', cn, elem=v, key=k, ref=ref, const=const)
+        m = re.fullmatch(r'std::__detail::_Node_(const_)?iterator<(.*)>|std::__detail::_Node_iterator_base<(.*)>', q)
+        if m:
+            return Ty('iter', 'size_t', elem=None, ref=ref, const=const)
+        m = re.fullmatch(r'(__gnu_cxx::)?__normal_iterator<(.*)>', q)
+        if m:
+            args = split_targs(m.group(2)); cont = self.ty(args[1])
             return Ty('iter', 'size_t', elem=cont, ref=ref, const=const)
+        if re.fullmatch(r'std::_Bit_(const_)?iterator', q):
+            return Ty('iter', 'size_t', elem=None, ref=ref, const=const)
         # records of this unit
         r = self.find_record(q)
         if r is not None:
